@@ -506,7 +506,7 @@ class VX(Future):
     https://www.cboe.com/ms/vix-futures-specsheet.pdf
     """
     exists_since = datetime(2004, 3, 26)  # see reference [1]
-    freq = "M"
+    freq = "ME"
     multiplier = 1000.0
 
     def _get_expiry_date(self, year: int, month: int) -> datetime:
